@@ -135,8 +135,12 @@ func (g *hgen) goodLogon(hb int) *rig.InMsg {
 	}
 	g.hb = hb
 	user, pass := "alice", "secret"
+	hbText := itoa(hb)
+	if g.t != nil && rapid.IntRange(0, 7).Draw(g.t, "hbZeroPadded") == 0 {
+		hbText = "0" + hbText // decimal with a leading zero: the same number
+	}
 	return &rig.InMsg{Type: rig.TLogon, Seq: g.seq(), Note: "good logon", Fields: []rig.Tok{
-		rig.F(rig.TagEncryptMethod, g.cfg.Methods[0]), rig.F(rig.TagHeartBtInt, itoa(hb)),
+		rig.F(rig.TagEncryptMethod, g.cfg.Methods[0]), rig.F(rig.TagHeartBtInt, hbText),
 		rig.F(rig.TagUsername, user), rig.F(rig.TagPassword, pass)}}
 }
 
@@ -197,7 +201,33 @@ func LogonVerdict(cfg *rig.Cfg, m *rig.InMsg) (verdict string, badTags []string)
 }
 
 func (g *hgen) testRequest(id string) *rig.InMsg {
-	return &rig.InMsg{Type: rig.TTestRequest, Seq: g.seq(), Fields: []rig.Tok{rig.F(rig.TagTestReqID, id)}}
+	m := &rig.InMsg{Type: rig.TTestRequest, Seq: g.seq(), Fields: []rig.Tok{rig.F(rig.TagTestReqID, id)}}
+	if g.t != nil && rapid.IntRange(0, 7).Draw(g.t, "steerChecksum") == 0 {
+		// a valid message whose CheckSum lands on an edge of the three-digit field
+		steerChecksum(m, rapid.SampledFrom([]string{"000", "000", "001", "009", "010", "099", "100", "255"}).Draw(g.t, "checksumEdge"))
+	}
+	return m
+}
+
+// steerChecksum extends the value of the message's last body field with up to
+// two characters so that the (valid) CheckSum of the message is want. The search
+// is deterministic; if no suffix fits the message is left as it was.
+func steerChecksum(m *rig.InMsg, want string) {
+	if len(m.Fields) == 0 {
+		return
+	}
+	f := &m.Fields[len(m.Fields)-1]
+	base := f.Val
+	const alphabet = "0123456789ABCDEFGHIJKLMNOPQRSTUVWXYZabcdefghijklmnopqrstuvwxyz"
+	for i := 0; i < len(alphabet); i++ {
+		for j := 0; j < len(alphabet); j++ {
+			f.Val = base + string(alphabet[i]) + string(alphabet[j])
+			if cs, _ := ref.Lookup(m.Bytes(), "10"); cs == want {
+				return
+			}
+		}
+	}
+	f.Val = base
 }
 
 func (g *hgen) heartbeat(id string) *rig.InMsg {
@@ -218,7 +248,12 @@ func (g *hgen) resend(b, e int) *rig.InMsg {
 
 func (g *hgen) app() *rig.InMsg {
 	typ := rapid.SampledFrom([]string{"Y", "V", "D", "8", "ZZ", "W"}).Draw(g.t, "appType")
-	return &rig.InMsg{Type: typ, Seq: g.seq(), Fields: []rig.Tok{rig.F(rig.TagMDReqID, "r"+itoa(g.inSeq))}}
+	m := &rig.InMsg{Type: typ, Seq: g.seq(), Fields: []rig.Tok{rig.F(rig.TagMDReqID, "r"+itoa(g.inSeq))}}
+	if rapid.IntRange(0, 3).Draw(g.t, "appDecoy") == 0 {
+		// fields whose tag or value only LOOKS like a session-level field (MsgType 35, MsgSeqNum 34, CheckSum 10)
+		m.Fields = append(m.Fields, rapid.SampledFrom([]rig.Tok{rig.F("435", "4"), rig.F("135", "4"), rig.F("1035", "A"), rig.F("134", "1"), rig.F("58", "x35=4"), rig.F("58", "34=1"), rig.F("110", "5"), rig.F("58", "ends with 35=4")}).Draw(g.t, "appDecoyField"))
+	}
+	return m
 }
 
 // resendRange draws (b,e) relative to the guessed number of messages sent.
